@@ -7,6 +7,7 @@
 #include <per_support.h>
 #include <oer_support.h>
 #include <OCTET_STRING.h>
+#include <INTEGER.h>
 #include <limits.h>
 
 /* ---- collecting sink */
@@ -236,6 +237,42 @@ int ops_per(int argc, char **argv, FILE *out) {
         size_t v = 12345;
         ssize_t r = oer_fetch_length(bf, len, &v);
         if(r > 0) fprintf(out, "ok %zu %zd", v, r); else if(r == 0) fputs("more", out); else fputs("fail", out);
+        free(bf);
+        return 1;
+    }
+    /* INTEGER_oer.c width logic: int_oer_enc <width> <positive> <hex contents of INTEGER_t> */
+    if(argc == 4 && !strcmp(op, "int_oer_enc")) {
+        size_t len; uint8_t *bf = hx_parse_exact(argv[3], &len);
+        if(!bf || !parse_ll(argv[1], &a) || !parse_ll(argv[2], &b) || a < 0 || a > 64) { fputs("bad-op", out); free(bf); return 1; }
+        asn_oer_constraints_t ct; memset(&ct, 0, sizeof ct);
+        ct.value.width = (unsigned)a; ct.value.positive = b ? 1 : 0; ct.size = -1;
+        INTEGER_t st; memset(&st, 0, sizeof st); st.buf = bf; st.size = len;
+        sink_t sk; memset(&sk, 0, sizeof sk);
+        asn_enc_rval_t er = INTEGER_encode_oer(&asn_DEF_INTEGER, &ct, &st, sink_cb, &sk);
+        if(er.encoded < 0) fputs("fail", out);
+        else if((size_t)er.encoded != sk.n) fprintf(out, "encoded-mismatch(%zd,%zu)", er.encoded, sk.n);
+        else hx_print(out, sk.b, sk.n);
+        free(sk.b); free(bf);
+        return 1;
+    }
+    /* int_oer_dec <width> <positive> <hex> */
+    if(argc == 4 && !strcmp(op, "int_oer_dec")) {
+        size_t len; uint8_t *bf = hx_parse_exact(argv[3], &len);
+        if(!bf || !parse_ll(argv[1], &a) || !parse_ll(argv[2], &b) || a < 0 || a > 64) { fputs("bad-op", out); free(bf); return 1; }
+        asn_oer_constraints_t ct; memset(&ct, 0, sizeof ct);
+        ct.value.width = (unsigned)a; ct.value.positive = b ? 1 : 0; ct.size = -1;
+        if(b && a == 0) {
+            /* finding F5: with a zero length at the very end of the data the decoder reads ptr[size]; do not execute */
+            size_t l = 1; ssize_t r = oer_fetch_length(bf, len, &l);
+            if(r > 0 && l == 0 && (size_t)r == len) { fputs("oob", out); free(bf); return 1; }
+        }
+        void *sp = 0;
+        asn_dec_rval_t rv = INTEGER_decode_oer(0, &asn_DEF_INTEGER, &ct, &sp, bf, len);
+        if(rv.code == RC_OK) {
+            INTEGER_t *st = sp;
+            fputs("ok ", out); hx_print(out, st->buf, st->size); fprintf(out, " %zu", rv.consumed);
+        } else fputs(rv.code == RC_WMORE ? "more" : "fail", out);
+        ASN_STRUCT_FREE(asn_DEF_INTEGER, sp);
         free(bf);
         return 1;
     }
